@@ -86,7 +86,7 @@ pub fn gen_probe_spec(c: &mut Chooser, allow_dispose: bool) -> ProbeSpec {
             policy.push(
                 [React::Terminate, React::Terminate, React::Error, React::PullTerminate, React::PullError][c.choose(5)],
             );
-            ProbeSpec { policy, rest: base, pull_cap: 1000, attach: None, late_pulls: false }
+            ProbeSpec { policy, rest: base, pull_cap: 1000, attach: None, late_pulls: false, drop_talkback: false }
         },
         _ => {
             let n = 1 + c.choose(6);
@@ -112,7 +112,7 @@ pub fn gen_probe_spec(c: &mut Chooser, allow_dispose: bool) -> ProbeSpec {
                 policy.push(r);
             }
             let rest = [React::Nothing, React::Pull][c.choose(2)];
-            ProbeSpec { policy, rest, pull_cap: 1000, attach: None, late_pulls: false }
+            ProbeSpec { policy, rest, pull_cap: 1000, attach: None, late_pulls: false, drop_talkback: false }
         },
     }
 }
@@ -221,6 +221,7 @@ pub fn gen_case_sized(c: &mut Chooser, op: &str, prop: &str, small: bool) -> Cas
         },
         "concat" => Topo::Concat(if c.chance(1, 12) { 0 } else { 1 + c.choose(if small { 2 } else { 4 }) }),
         "combine" => Topo::Combine(1 + c.choose(if small { 2 } else { 3 })),
+        "flatten" if !small && !credit && c.chance(1, 8) => Topo::FlattenRepeat(2 + c.choose(3)),
         "flatten" => Topo::Flatten(c.choose(if small { 3 } else { 5 })),
         "share" => {
             n_probes = 1 + c.choose(if small { 2 } else { 3 });
@@ -262,7 +263,7 @@ pub fn gen_case_sized(c: &mut Chooser, op: &str, prop: &str, small: bool) -> Cas
         n_probes = 2;
     }
     if matches!(prop, "C08" | "C09" | "C10" | "C11")
-        && matches!(topo, Topo::Merge(_) | Topo::Concat(_) | Topo::Combine(_) | Topo::Flatten(_))
+        && matches!(topo, Topo::Merge(_) | Topo::Concat(_) | Topo::Combine(_) | Topo::Flatten(_) | Topo::FlattenRepeat(_))
         && !small
         && c.chance(1, 4)
     {
@@ -291,6 +292,7 @@ pub fn gen_case_sized(c: &mut Chooser, op: &str, prop: &str, small: bool) -> Cas
         Topo::Unary(_) | Topo::Share(_) | Topo::ForEach => 1,
         Topo::Merge(n) | Topo::Concat(n) | Topo::Combine(n) => *n,
         Topo::Flatten(n) => 1 + n,
+        Topo::FlattenRepeat(_) => 2,
         Topo::Tree(n) => n.n_leaves(),
         Topo::FromIter(_) => 0,
     };
@@ -307,7 +309,12 @@ pub fn gen_case_sized(c: &mut Chooser, op: &str, prop: &str, small: bool) -> Cas
         } else {
             gen_puppet_spec(c, allow_late, modes, fins)
         };
-        if matches!(topo, Topo::Flatten(_)) && i == 0 {
+        if !credit && c.chance(1, 5) {
+            // the end follows the last datum in the same call (not in the C14 environment, whose
+            // upstreams answer a Pull with one Data *or* their end)
+            s.eager_end = true;
+        }
+        if matches!(topo, Topo::Flatten(_) | Topo::FlattenRepeat(_)) && i == 0 {
             // the outer's length is the number of inners
             s.late = false;
         }
@@ -317,7 +324,7 @@ pub fn gen_case_sized(c: &mut Chooser, op: &str, prop: &str, small: bool) -> Cas
         pspecs.push(s);
         lens.push(c.choose(if small { 3 } else { 5 }));
     }
-    if let Topo::Flatten(n) = &topo {
+    if let Topo::Flatten(n) | Topo::FlattenRepeat(n) = &topo {
         lens[0] = *n;
     }
     if let Topo::Tree(node) = &topo {
